@@ -28,7 +28,7 @@ from mc.core import Stats
 PROPERTY = "C04"
 LEVEL = "model_checking"
 ENGINE = "E1"
-READY = False
+READY = True
 
 BINDS = ["ctx", "page", "assign", "defarg", "encl", "for", "module", "import"]
 SITES = [
